@@ -43,8 +43,11 @@ func (vc *VC) newEnv(st, old *state, pkgPath string) *specEnv {
 func (vc *VC) envAt(st, old *state) *specEnv {
 	env := vc.newEnv(st, old, FuncPkgPath(vc.fn))
 	env.locals = true
-	for _, p := range vc.fn.Params {
+	for i, p := range vc.fn.Params {
 		env.vars[p.Name()] = sval{term: vc.vals[p], typ: p.Type()}
+		if i == 0 && vc.fn.Signature.Recv() != nil {
+			env.vars["recv"] = sval{term: vc.vals[p], typ: p.Type()}
+		}
 	}
 	for _, fv := range vc.fn.FreeVars {
 		env.freeCells[fv.Name()] = sval{term: vc.vals[fv], typ: fv.Type()}
@@ -508,6 +511,18 @@ func (vc *VC) trCall(e *ECall, env *specEnv, c *Clause) sval {
 		t := vc.resolveType(ty.Text, env.pkg, c)
 		v := vc.tr(e.Args[1], env, c)
 		return sval{term: vc.boxTerm(t, v.term), typ: types.NewInterfaceType(nil, nil)}
+	case "unchanged":
+		// unchanged(table): the whole ghost table equals its value in the old state
+		argN(1)
+		id, ok := e.Args[0].(*EIdent)
+		if !ok {
+			vc.specFail(c, "unchanged(<ghost table or variable>)")
+		}
+		key, _, ok := vc.ghostKey(id.Name)
+		if !ok {
+			vc.specFail(c, "unknown ghost state %q", id.Name)
+		}
+		return boolv(fmt.Sprintf("(= %s %s)", env.st.get(key), env.old.get(key)))
 	case "iscopy":
 		argN(2)
 		x, y := vc.tr(e.Args[0], env, c), vc.tr(e.Args[1], env, c)
